@@ -316,6 +316,30 @@ def run_history(c, eq, outdir, meta):
     meta["histories"] = len(out)
 
 
+def build_equilibrium_X(c, inp, out, outdir):
+    """isolated X-point through the TORPEX g-file path (no sympy needed)"""
+    from hypnotoad.cases import torpex
+    from hypnotoad.geqdsk import _geqdsk
+
+    R1D, Z1D = inp["R1D"], inp["Z1D"]
+    nx, ny = len(R1D), len(Z1D)
+    f = inp["analytic"]
+    data = dict(nx=nx, ny=ny, rdim=float(R1D[-1] - R1D[0]), zdim=float(Z1D[-1] - Z1D[0]), rcentr=1.0,
+                rleft=float(R1D[0]), zmid=float(0.5 * (Z1D[0] + Z1D[-1])), rmagx=1.0, zmagx=0.0,
+                simagx=float(f(1.0, 0.0)), sibdry=0.0, bcentr=inp["Bt_axis"], cpasma=0.0,
+                fpol=inp["Bt_axis"] * np.ones(nx), pres=np.zeros(nx), qpsi=np.zeros(nx), psi=inp["psi2D"].copy())
+    data["rlim"] = [p[0] for p in inp["wall"]]
+    data["zlim"] = [p[1] for p in inp["wall"]]
+    path = os.path.join(outdir, "xpoint.g")
+    with open(path, "w") as fh:
+        _geqdsk.write(data, fh, label="verif")
+    with open(path) as fh:
+        out["geqdsk_text"] = fh.read()
+    eq = torpex.TORPEXMagneticField({"gfile": path}, dict(c["options"]))
+    eq.makeRegions()
+    return eq
+
+
 def run_config(config, outdir):
     c = families.normalise(config)
     meta = dict(config=c, stages={}, outcome=None)
@@ -329,7 +353,10 @@ def run_config(config, outdir):
         inp["_fpol_kind"] = c["fpol"]
         inp["_pressure_kind"] = c["pressure"]
         stage = "equilibrium"
-        eq = build_equilibrium(c, inp, side_extra)
+        if c["family"] == "X":
+            eq = build_equilibrium_X(c, inp, side_extra, outdir)
+        else:
+            eq = build_equilibrium(c, inp, side_extra)
         meta["stages"]["equilibrium"] = time.time() - t0
         if c["kind"] == "history":
             stage = "history"
@@ -345,6 +372,9 @@ def run_config(config, outdir):
 
             stage = "mesh"
             mopts = dict(c["options"])
+            if c["family"] == "X":
+                # as hypnotoad.cases.torpex.createMesh does: pick up the equilibrium's defaults
+                mopts.update(eq.user_options)
             mopts.update(c.get("mesh_options_override", {}))
             mesh = BoutMesh(eq, mopts)
             meta["stages"]["mesh"] = time.time() - t0
@@ -398,7 +428,9 @@ def main():
     os.dup2(log.fileno(), 1)
     os.dup2(log.fileno(), 2)
     try:
-        if config.get("family", "G") == "buildseq":
+        if config.get("family", "G") == "X":
+            meta = run_config(config, outdir)
+        elif config.get("family", "G") == "buildseq":
             t0 = time.time()
             meta = run_buildseq(config, outdir)
             meta["wall_s"] = time.time() - t0
